@@ -188,6 +188,10 @@ func (batch *Batch) Read(b []byte) (int, error) {
 		n, err = len(b), io.ErrShortBuffer
 		batch.err = io.ErrShortBuffer
 		batch.offset = offset // rollback
+	} else if err != nil {
+		// the message was not completely received (e.g. truncated by the
+		// broker): its value must not be reported as read.
+		n = 0
 	}
 
 	batch.mutex.Unlock()
@@ -244,6 +248,11 @@ func (batch *Batch) ReadMessage() (Message, error) {
 	}
 
 	batch.mutex.Unlock()
+	if err != nil {
+		// never hand out the part of a message that was received before the
+		// error (e.g. the prefix of a value truncated by the broker).
+		msg.Key, msg.Value, headers = nil, nil, nil
+	}
 	msg.Topic = batch.topic
 	msg.Partition = batch.partition
 	msg.Offset = offset
